@@ -83,7 +83,7 @@ PROPS = {
         "suites": ["key", "crash"],
         "skeleton_funcs": FS_SKEL + ["Txn.Commit", "DB.rawset", "memtable.set"],
         "trusted_base": DB_TB + FS_TB + ["extract/gotrans.go (DESIGN section 14) regenerates GenDB.rawset / GenDB.flushImmutable (the order of the effects of DB.rawset and DB.flushImmutable) from /repo on every run; DBTie.rawset_table / flushImmutable_table are part of this property's module",
-                                         "extract/gotrans.go also regenerates GenWal.write (WAL.Write: staging loop, the one write to the file, fsync, every error exit); WalTie.write_table / write_once / write_ack are part of this property's module; GenTxn.commitBatch (the statements of Txn.Commit that build the batch from the pending writes; TxnTie.commitBatch_eq) is regenerated too; bufferpool.Pool.Get returns an empty buffer, binary.Write into a bytes.Buffer appends and cannot fail, utils.TMarshal and the 8-byte length are function parameters (their bytes are the codec suite's business)"],
+                                         "extract/gotrans.go also regenerates GenWal.write (WAL.Write: staging loop, the one write to the file, fsync, every error exit); WalTie.write_table / write_once / write_ack are part of this property's module; GenTxn.commitBatch (the statements of Txn.Commit that build the batch from the pending writes; TxnTie.commitBatch_eq) and GenDB.memtableSet (memtable.set: the skiplist sets, then one wal.Write of the whole batch; DBTie.memtableSet_table) are regenerated too; bufferpool.Pool.Get returns an empty buffer, binary.Write into a bytes.Buffer appends and cannot fail, utils.TMarshal and the 8-byte length are function parameters (their bytes are the codec suite's business)"],
         "assumptions": ["process-crash model only (a torn batch belongs to C14, which claims acknowledged commits only)",
                         "that the code is the program Prog is tied dynamically (recorded traces must be traces of Prog.act) and by the skeleton"],
         "explanation": "a transaction reaches the disk through exactly one commit event carrying its whole batch; written batches stay kept, unwritten ones are absent, for every accepted trace and for every execution of the program model Prog (ReachP); crash suite checks all-or-nothing of the in-flight transaction on every image",
